@@ -31,6 +31,18 @@ Theorem C13_chain : forall fs job ts l,
   chain fs job ts = Ok l -> l = filter (survives fs job) ts.
 Proof. exact chain_ok. Qed.
 
+(* A filter OBJECT keeps nothing from one job to the next: running a sequence of jobs (each with its own step
+   name, inputs and target list) through the same chained filter objects, threading the objects' state
+   (rules, _evaluated_steps), gives for every job exactly what the stateless chain gives for that job alone. *)
+Theorem C13_filter_stateless : forall cs sts,
+  run_calls sts cs = map (fun c => chain (map f_rules sts) (c_inputs c) (c_ts c)) cs.
+Proof. exact run_calls_stateless. Qed.
+(* so the k-th job of any sequence gets the survivors of all filters among ITS targets, in ITS declared order *)
+Theorem C13_filter_each_job : forall cs sts k c l,
+  nth_error cs k = Some c -> nth_error (run_calls sts cs) k = Some (Ok l) ->
+  l = filter (survives (map f_rules sts) (c_inputs c)) (c_ts c).
+Proof. exact run_calls_each. Qed.
+
 (* The attempt loop: whatever the sequence of passes (initial attempt, then one per notify_all) and
    whatever can host during each pass, the allocation trace is: nothing until the first pass in which
    some target can host, and from then on the first such target in list order. *)
@@ -107,6 +119,8 @@ Print Assumptions C13_filter.
 Print Assumptions C13_filter_total.
 Print Assumptions C13_filter_other_errors.
 Print Assumptions C13_chain.
+Print Assumptions C13_filter_stateless.
+Print Assumptions C13_filter_each_job.
 Print Assumptions C13_first_trace.
 Print Assumptions C13_first.
 Print Assumptions C13_unscheduled.
